@@ -103,6 +103,19 @@ CHECKS = {
    note=("Trusted: kernel, harness, BigF evaluation. radialrange relocation is an oracle (C13); T2t/isclosed are inputs (C05)."),
    technique='Coq theorems (list induction, ring/field, reals) + correspondence in exact rationals / bigfloats',
    ref='DESIGN.md §3 C09'),
+ 'C10': dict(
+   text=("ALL DEGREES: any map preserving affine combinations commutes with the Bernstein curve (from the de Casteljau recurrence), hence "
+         "translate/rotate (any (c,s))/transform (any 3x3 matrix) commute with point; scale_bezier's bez2poly -> _scale -> constant-term "
+         "correction -> poly2bez route equals scaling every control point (degree 1-3, field); arcs over R on the formulas of _parameterize: "
+         "translate, rotate about any origin, uniform scale (any sx != 0) are equivariant (full), non-uniform scale refused; the arc branch of "
+         "transform as coded is REFUTED on the model (three bigfloat witnesses: sweep rule, arccos sign, own rotation ignored). Exact joints "
+         "for ANY carrier with no algebraic laws: every enumerated joint stays joined, closed stays closed for end-point-local kernels, refuted "
+         "for scale_bezier in binary64 (PrimFloat witness), positive theorem for a joints() that includes the closing pair. Tie: translator "
+         "agreement (bez2poly) + exact-rational (Bezier) / bigfloat (arc) correspondence, bit-exact PrimFloat prediction of which closed paths "
+         "lose closure; statement evaluated on the implementation incl. bitwise joints."),
+   note=("Trusted: kernel, py2v.py, harness, BigF evaluation; np.linalg.eig/inv are oracles (recorded); cos/sin of the angle are data."),
+   technique='Coq theorems (list induction, ring/field, reals) + PrimFloat witnesses + correspondence in exact rationals / bigfloats',
+   ref='DESIGN.md §3 C10'),
  'C13': dict(
    text=("As-coded models of Line.radialrange, bezier_radialrange (candidates 0,1 + roots01 of d/dt|B-z|^2, first-extremal min/max), "
          "Path.radialrange with indices (coq/Model/Extrema.v). Theorems over R: Line: returned (d,t) are attained and GLOBAL on [0,1] (full); "
